@@ -111,6 +111,9 @@ def build(variant, thash=None):
             _run([cxx, "-std=gnu++17"] + allflags.split() + ["-DUSE_ZLIB", "-Dmain=dfs_main",
                  "-I", os.path.join(REPO, "dfs"), "-c", os.path.join(REPO, "dfs", "main.cc"),
                  "-o", os.path.join(bdir, "dfs_main_renamed.o")], log=log)
+            _run([cc] + allflags.split() + ["-Dmain=bbc_main",
+                 "-I", os.path.join(REPO, "basic"), "-c", os.path.join(REPO, "basic", "bbcbasic_to_text.c"),
+                 "-o", os.path.join(bdir, "bbc_main_renamed.o")], log=log)
         else:
             _run(["cmake", "--build", bdir, "-j", "16", "--target"] + targets, log=log)
         open(stamp, "w").write(time.strftime("%F %T"))
